@@ -102,6 +102,8 @@ def enclosing_fn(s, pos):
 
 
 def awaits_in(s, a, b):
+    # a future handed to `spawn(..)` inside the guard's scope is another task: its awaits do not happen under the guard
+    s = s[:a] + mask_spawn(s[a:b]) + s[b:]
     out = []
     for m in re.finditer(r"\.await", s[a:b]):
         e = a + m.start()
@@ -149,7 +151,6 @@ for path in FILES:
     if t >= 0:
         src = src[:t]
     rel = os.path.relpath(path, repo)
-    src = mask_spawn(src)
     for m in LET_GUARD.finditer(src):
         name, expr, acq = m.group(1), m.group(3), m.group(4)
         kind = lock_kind(rel, expr, acq)
